@@ -63,6 +63,11 @@ func (o *sorterOracle) Call(ip *absint.Interp, site ssa.CallInstruction, args []
 			}
 			return bool(r)
 		}
+		for i := 0; i < n; i++ {
+			for j := 0; j < n; j++ {
+				o.checkLess(l.Elems[i], l.Elems[j], less(i, j))
+			}
+		}
 		for i := 1; i < n; i++ {
 			for j := i; j > 0 && less(j, j-1); j-- {
 				l.Elems[j], l.Elems[j-1] = l.Elems[j-1], l.Elems[j]
@@ -82,6 +87,11 @@ func (o *sorterOracle) Call(ip *absint.Interp, site ssa.CallInstruction, args []
 			}
 			return bool(r)
 		}
+		for _, a := range l.Elems {
+			for _, b := range l.Elems {
+				o.checkLess(a, b, less(a, b))
+			}
+		}
 		// stable insertion sort in place under the interpreted comparator
 		for i := 1; i < len(l.Elems); i++ {
 			for j := i; j > 0 && less(l.Elems[j], l.Elems[j-1]); j-- {
@@ -91,6 +101,24 @@ func (o *sorterOracle) Call(ip *absint.Interp, site ssa.CallInstruction, args []
 		return nil, true
 	}
 	return nil, false
+}
+
+// checkLess: the comparator handed to the sort is the strict order on Order values - sort.Slice requires a strict weak
+// ordering (a comparator answering true for equal keys makes the result depend on the algorithm: ties come out reversed).
+func (o *sorterOracle) checkLess(a, b absint.Value, got bool) {
+	ta, ok1 := a.(*absint.Tok)
+	tb, ok2 := b.(*absint.Tok)
+	if !ok1 || !ok2 {
+		return
+	}
+	oa, ok1 := ta.Attr["order"].(absint.Int)
+	ob, ok2 := tb.Attr["order"].(absint.Int)
+	if !ok1 || !ok2 {
+		return
+	}
+	if got != (oa < ob) {
+		o.cmpBad = append(o.cmpBad, fmt.Sprintf("less(%s, %s) = %v with Order %d and %d", ta.ID, tb.ID, got, int64(oa), int64(ob)))
+	}
 }
 
 var sorterClasses = []string{"P", "O", "U", "Q"}
@@ -450,7 +478,8 @@ func c12R5(c *core.Ctx, r *core.Report, ro *core.Roles, sorter *ssa.Function) {
 		r.Check(helpers[st.Fn] || helpers[core.TopLevel(st.Fn)], "C12.R5", "writers:"+bs.recv.Obj().Name()+"."+bs.dispatch+"@"+core.FnName(st.Fn), c.Pos(st.Instr.Pos()),
 			"the dispatch list is written only by the bootstrap routine and its helpers")
 	}
-	bsTable(c, r, bs, "C12.R5", map[string]bool{"chain-order": true, "managed": true})
+	// eager-create: each participant is created under its own component name (a wrong key would fill its slot with another one)
+	bsTable(c, r, bs, "C12.R5", map[string]bool{"chain-order": true, "managed": true, "eager-create": true})
 }
 
 // dispatchTables runs the decision tables of the four dispatch stages (before-instantiation resolver, property stage,
@@ -580,6 +609,9 @@ func sorterTableFor(c *core.Ctx, r *core.Report, inst *ssa.Function, maxLen int,
 		out := ip.Run(inst, []absint.Value{in}, nil)
 		runs++
 		label := absint.Show(&absint.List{Elems: orig})
+		if len(orc.cmpBad) > 0 {
+			addBad(bad, "R3 strict comparator", label+": "+orc.cmpBad[0])
+		}
 		switch {
 		case out.Undecided != nil:
 			undec = out.Undecided.Msg
@@ -642,7 +674,7 @@ func sorterTableFor(c *core.Ctx, r *core.Report, inst *ssa.Function, maxLen int,
 		r.Undecided(ruleOf("R1"), "sorter:"+name, c.FnPos(inst), "abstract interpretation left the model: "+undec)
 		return runs
 	}
-	for _, rule := range []string{"R1 total", "R1 permutation", "R2 grouping", "R3 non-decreasing Order"} {
+	for _, rule := range []string{"R1 total", "R1 permutation", "R2 grouping", "R3 non-decreasing Order", "R3 strict comparator"} {
 		id := ruleOf(strings.Fields(rule)[0])
 		cons := "sorter:" + name + ":" + strings.Join(strings.Fields(rule)[1:], "-")
 		if w := bad[rule]; len(w) > 0 {
